@@ -22,9 +22,9 @@ import (
 // backend fault patterns
 const (
 	fpHealthy    = "healthy"
-	fpRefuse     = "refuse"      // fails at once, body untouched
-	fpFailAfterK = "fail-after"  // reads K body bytes, then fails
-	fpFailFirstM = "fail-first"  // refuses the first M attempts, then healthy
+	fpRefuse     = "refuse"        // fails at once, body untouched
+	fpFailAfterK = "fail-after"    // reads K body bytes, then fails
+	fpFailFirstM = "fail-first"    // refuses the first M attempts, then healthy
 	fpReadAllErr = "read-all-fail" // reads the whole body, then fails
 )
 
@@ -35,15 +35,15 @@ type backendSpec struct {
 }
 
 type retryCase struct {
-	Policy      string        `json:"policy"`
-	Backends    []backendSpec `json:"backends"`
-	MaxFails    int           `json:"max_fails"`
-	TryMs       int           `json:"try_duration_ms"`
-	FailMs      int           `json:"fail_timeout_ms"`
-	BodyLen     int           `json:"body_len"`
-	Chunked     bool          `json:"chunked"` // no Content-Length
-	Key         string        `json:"key"`
-	Method      string        `json:"method"`
+	Policy   string        `json:"policy"`
+	Backends []backendSpec `json:"backends"`
+	MaxFails int           `json:"max_fails"`
+	TryMs    int           `json:"try_duration_ms"`
+	FailMs   int           `json:"fail_timeout_ms"`
+	BodyLen  int           `json:"body_len"`
+	Chunked  bool          `json:"chunked"` // no Content-Length
+	Key      string        `json:"key"`
+	Method   string        `json:"method"`
 }
 
 type attempt struct {
